@@ -17,7 +17,8 @@ import Postcard.Model.DynCost
   * allocation: refuted for `Seq` of zero-width elements (`alloc_seq_unit`,
     `dyn_alloc_bound_false`, unrepaired); `dyn_alloc_bound_partial_frag` (sections L, M)
     for schemas whose `Seq` element types have positive minimum width, on the fragment
-    without `Enum` / `Map` / `Schema` nodes (explicit constants `K = C = allocW s`).
+    without `Enum` / `Map` / `Schema` nodes (explicit constants `K = C = allocW s`);
+    the FULL bound for every kind is `dyn_alloc_bound` in Props/C18Alloc.lean.
 
   Helper lemmas live in `namespace Postcard.Dyn`.
 -/
@@ -2200,14 +2201,10 @@ example : allocFrag (.seq (.struct [83] (.struct [.mk [97] .u8, .mk [98] (.optio
     allocFrag (.seq (.struct [83] .unit)) = false := by decide
 
 /-
-TODO (not proved; statements kept for the next round):
+CLOSED since: `dyn_alloc_bound` (Props/C18Alloc.lean) extends the bound to `Map`, `Enum` and the
+`Schema` kind under `minWidthPos s` ("every reachable `Seq` element type has `0 < minWidth`").
 
-* dyn_alloc_bound_partial in full: extend `allocFrag` / `ab_val` to `Map` (every entry consumes
-  ≥ 1 byte for the key length, so no restriction on the value type is needed), `Enum` (weight:
-  max over variants of name length + 3 + payload weight) and the `Schema` kind (needs
-  `(jsonOfSchema s).cost ≤ K * consumed bytes`, K ≈ 40, by induction on `decOwned`).  With
-  `minWidthPos s` := "every `Seq` element type in `s` has `0 < minWidth`", the target is
-    minWidthPos s = true → allocDyn fo s bs ≤ allocW s * bs.length + allocW s.
+TODO (not proved):
 * exact characterisation of the re-encoding failures (`reencOk s = false → ∃ j, …`); currently
   the two excluded shapes come with witnesses, not with a general converse.
 -/
